@@ -1,4 +1,4 @@
-import CanvasProofs.Lemmas.C06Path
+import CanvasProofs.Lemmas.C06Chain
 set_option linter.unusedSimpArgs false
 set_option linter.unusedVariables false
 
@@ -8,6 +8,37 @@ position needed): every hit lies at or right of the query point, a hit is at the
 T[0] = 0, the stable sort brings a smallest hit to the front, and `windings` sets the flag from there. -/
 namespace Canvas.C06
 open Canvas.Wn
+
+/-- the rotation at the Close command either leaves the list alone or moves its last element to the front -/
+theorem rotateStart_cases (p v0 : IPt) (hs : List Hit) :
+    rotateStart p v0 hs = hs ∨ ∃ ys hl, hs = ys ++ [hl] ∧ rotateStart p v0 hs = hl :: ys := by
+  unfold rotateStart
+  split
+  · rename_i h0 h1 tl
+    split
+    · rename_i hl hget
+      split
+      · right
+        obtain ⟨ys, hys⟩ := List.getLast?_eq_some_iff.mp hget
+        exact ⟨ys, hl, hys, by rw [hys, List.dropLast_concat]⟩
+      · left; rfl
+    · left; rfl
+  · left; rfl
+
+theorem mem_rotateStart (p v0 : IPt) (hs : List Hit) (g : Hit) :
+    g ∈ rotateStart p v0 hs ↔ g ∈ hs := by
+  rcases rotateStart_cases p v0 hs with h | ⟨ys, hl, h1, h2⟩
+  · rw [h]
+  · rw [h2, h1]; simp [or_comm]
+
+theorem mem_subHits (closed : Bool) (p : IPt) (poly : List IPt) (g : Hit) :
+    g ∈ subHits closed p poly ↔ g ∈ chainHits p (subpathVerts closed poly) := by
+  cases poly with
+  | nil => simp [subHits, subpathVerts, chainHits]
+  | cons a r =>
+    cases closed with
+    | false => simp [subHits, subpathVerts]
+    | true => simp only [subHits, if_true]; exact mem_rotateStart p a _ g
 
 /-- p lies on a non-degenerate segment of the chain -/
 def onChain (p : IPt) : List IPt → Prop
@@ -302,12 +333,11 @@ theorem go_no_t0 (zs : List Z) (n : Int) (b : Bool) (st : Bool × Bool)
   | case1 n b st => intro m b' hm; simp at hm; exact hm.2.symm
   | case2 z rest n b st ht ih => exact absurd ht (by simp [h z (by simp)])
   | case3 z rest n b st ht he ih => exact ih (fun z hz => h z (by simp [hz]))
-  | case4 z n b st ht he hsame => intro m b' hm; simp at hm; exact hm.2.symm
-  | case5 z n b st ht he hsame => intro m b' hm; simp at hm
-  | case6 z n b st ht he z2 rest' hss ih => exact ih (fun z hz => h z (by simp [hz]))
+  | case4 z n b st ht he => intro m b' hm; simp at hm; exact hm.2.symm
+  | case5 z n b st ht he z2 rest' hss ih => exact ih (fun z hz => h z (by simp [hz]))
+  | case6 z n b st ht he z2 rest' hss hne into hov ih => exact ih (fun z hz => h z (by simp [hz]))
   | case7 z n b st ht he z2 rest' hss hne into hov ih => exact ih (fun z hz => h z (by simp [hz]))
-  | case8 z n b st ht he z2 rest' hss hne into hov ih => exact ih (fun z hz => h z (by simp [hz]))
-  | case9 z n b st ht he z2 rest' hss hne ih => exact ih (fun z hz => h z (by simp [hz]))
+  | case8 z n b st ht he z2 rest' hss hne ih => exact ih (fun z hz => h z (by simp [hz]))
 
 theorem go_t0_head (z : Z) (rest : List Z) (hz : z.t0zero = true) (m : Int) (b' : Bool)
     (hr : windings (z :: rest) = .ok m b') : b' = true := by
@@ -329,10 +359,10 @@ theorem boundary_flag_iff (closed : Bool) (p : IPt) (poly : List IPt) (m : Int) 
   constructor
   · intro hb
     by_contra hno
-    have hn : ∀ z ∈ (isort (chainHits p (subpathVerts closed poly))).map Hit.z, z.t0zero = false := by
+    have hn : ∀ z ∈ (isort (subHits closed p poly)).map Hit.z, z.t0zero = false := by
       intro z hz
       obtain ⟨g, hg, rfl⟩ := List.mem_map.mp hz
-      have hg' := (mem_isort g _).mp hg
+      have hg' := (mem_subHits closed p poly g).mp ((mem_isort g _).mp hg)
       cases ht : g.t0zero with
       | false => simp [Hit.z, ht]
       | true => exact absurd (hc.2.mp ⟨g, hg', ht⟩) hno
@@ -340,13 +370,14 @@ theorem boundary_flag_iff (closed : Bool) (p : IPt) (poly : List IPt) (m : Int) 
     rw [hb] at this; exact absurd this (by simp)
   · intro hon
     obtain ⟨g, hg, ht⟩ := hc.2.mpr hon
-    have hgs : g ∈ isort (chainHits p (subpathVerts closed poly)) := (mem_isort g _).mpr hg
-    cases hl : isort (chainHits p (subpathVerts closed poly)) with
+    have hgs : g ∈ isort (subHits closed p poly) :=
+      (mem_isort g _).mpr ((mem_subHits closed p poly g).mpr hg)
+    cases hl : isort (subHits closed p poly) with
     | nil => rw [hl] at hgs; simp at hgs
     | cons g0 rest =>
-      have hmin := isort_head_min (chainHits p (subpathVerts closed poly)) g hgs g0 (by rw [hl]; rfl)
+      have hmin := isort_head_min (subHits closed p poly) g hgs g0 (by rw [hl]; rfl)
       have hg0mem : g0 ∈ chainHits p (subpathVerts closed poly) :=
-        (mem_isort g0 _).mp (by rw [hl]; simp)
+        (mem_subHits closed p poly g0).mp ((mem_isort g0 _).mp (by rw [hl]; simp))
       have hgx : g.x = (p.x : Rat) := (hc.1 g hg).2.mp ht
       have hg0 := hc.1 g0 hg0mem
       have : g0.x = (p.x : Rat) := by
